@@ -1,7 +1,7 @@
 //@file nervusdb-storage/src/pager.rs
 //@crate nervusdb-storage
 //@covers nervusdb-storage/src/pager.rs::Bitmap::find_free_in_range
-//@trusted core::iter::Iterator::find on a Range<u64> returns the first id of the range for which the closure returns true (std); with Bitmap::get_bit's contract (proved in Verus) this gives the contract unit c18_pager assumes for find_free_in_range at every position; the harness c18_find_free_window* checks it on the compiled code for windows near id 0 only
+//@trusted core::iter::Iterator::find on a Range<u64> visits the ids of the range in increasing order and returns the first one for which the closure returns true (std) - this is what rewrite rule R13 of Verus unit c18_pager relies on when it proves the contract of find_free_in_range from the real closure body for every position; the harness c18_find_free_window* cross-checks the same contract on the compiled code (std's own find), for windows near id 0 only
 //@covers nervusdb-storage/src/pager.rs::Bitmap::get_bit
 //@covers nervusdb-storage/src/pager.rs::Bitmap::set_bit
 //@covers nervusdb-storage/src/pager.rs::Meta::encode_page
@@ -9,7 +9,7 @@
 // Kani harnesses for C18, allocator side.  Appended under cfg(kani) inside the real pager.rs of a
 // scratch copy of /repo's working tree.
 //
-//@harness c18_find_free_window8 bounded(window<=8,start<48) "Bitmap::find_free_in_range on arbitrary bitmap bytes, any start < 48, any window of <= 8 ids: returns the least clear bit of the window or None (the contract the Verus unit c18_pager assumes for it)"
+//@harness c18_find_free_window8 bounded(window<=8,start<48) "Bitmap::find_free_in_range on arbitrary bitmap bytes, any start < 48, any window of <= 8 ids: returns the least clear bit of the window or None (the contract the Verus unit c18_pager proves for it through rule R13; here checked against std's own Iterator::find on the compiled code)"
 //@harness c18_find_free_window16 bounded(window<=16,start<48) tier=thorough "same, windows of <= 16 ids"
 //@harness c18_bitmap_set_get complete "Bitmap::set_bit / get_bit on an arbitrary bitmap, any two ids < 65536: the written bit reads back, every other bit is unchanged"
 //@harness c18_meta_roundtrip complete "Meta::decode_page(Meta::encode_page(m)) == m for all field values (page size and format epoch as the decoder requires; legacy next_internal_id rule)"
